@@ -480,7 +480,6 @@ def pdf_std_security(V, R, length_bits, cfm, cf_len, write_length=True, payload=
     the per-object keys are really used - for parameter combinations a conforming writer never emits
     (AESV2 with a 40-bit key, V2 with 256 bits, ...).  The content stream holds arbitrary bytes."""
     import hashlib
-    sys.path.insert(0, str(Path(__file__).parent)) if str(Path(__file__).parent) not in sys.path else None
     n = max(1, (length_bits or 40) // 8) if R >= 3 else 5
     ident = hashlib.md5(b"c01-pdf").digest()
     P = -4
@@ -521,7 +520,7 @@ def pdf_std_security(V, R, length_bits, cfm, cf_len, write_length=True, payload=
             payload = clear
         elif aes:
             try:
-                import c08_writers as W8
+                from props import c08_writers as W8
                 padn = 16 - len(clear) % 16
                 iv = bytes(range(16))
                 payload = iv + W8.aes_cbc_encrypt(ok_, iv, clear + bytes([padn]) * padn)
@@ -706,6 +705,24 @@ def fuzz(ctx):
         if secs > 10:
             ctx.count("slow>10s")
     ctx.extra["fuzz_timeouts_first_pass"] = [f"{k}:{lab}:{m}" for _, k, lab, _, m in slow][:20]
+    # inputs known (from C12's amplifier families) to keep third-party loops busy for minutes: run apart from the main
+    # stream so that their time-outs do not use up its budget
+    try:
+        from props import c12_amp
+        apart = [c12_amp.ole_property_vector(kk) for kk in (("doc",) if ctx.tier == "quick" else ("doc", "ppt", "xls"))]
+        apart = [(a[1].split(".")[-1], "special:" + a[0], a[2], None) for a in apart if a]
+        lim = ctx.n(40, 120)
+        r3 = c01_fuzz.run_cases(apart, nproc=3, case_timeout=lim, total_timeout=lim + 20)
+        for j, (k, lab, b, m) in enumerate(apart):
+            oc, det, secs = r3.get(j, ("timeout", "", lim))
+            ctx.case((k, lab, len(b), None, hash(b)), True, kind="extract:" + oc)
+            if oc == "timeout":
+                ctx.finding(f"hang:{k}:{lab}", f"{k} extractor did not finish within {lim} s on {lab} ({len(b)} bytes; 8 bytes of a "
+                            "fixture's SummaryInformation stream changed)", {"registry_key": k, "label": lab, "input": b})
+            elif oc == "foreign":
+                ctx.finding(f"foreign:{k}:{det.split(':')[0]}", f"{k} let {det} escape on {lab}", {"registry_key": k, "label": lab, "input": b})
+    except Exception as e:  # noqa
+        ctx.count("apart-inputs-unavailable:" + type(e).__name__)
     for i, k, lab, b, m in slow[:2]:
         r2 = c01_fuzz.run_cases([(k, lab, b, m)], nproc=1, case_timeout=60, total_timeout=70)
         oc, det, secs = r2.get(0, ("timeout", "", 60))
